@@ -536,6 +536,54 @@ def ob_dofmap(mesh, kind, deg, thorough):
     return res
 
 
+def ob_p1_selection_native(gridname):
+    """bounded link between the block contract and real executions: the extracted selection block of _compute_p1_dof_map (the text the V-engine proves) is run by
+    CPython along the real loop order on real grids for all option combinations and several segment choices; at every step its `requires` hold (grid invariants of
+    the vertex-neighbour table, support flags) and its `ensures` hold; the state it leaves (pre-dof table) agrees with the map the real function returns."""
+    import itertools
+    from vlib import vrun as VR, vnative as VN, zoo as Z
+    from bempp_cl.api.space.space import _process_segments
+    from bempp_cl.api.space import scalar_spaces as SC
+
+    block, contract, params = VR.native_block("contracts.dofmap_blocks", "_p1_selection_block", helpers=("find_index",))
+    grid = Z.grid_with_domains(gridname)
+    doms = sorted(set(int(d) for d in grid.domain_indices))
+    steps = 0
+    vn, ptr = grid.vertex_neighbors
+    for segs in [None] + [[d] for d in doms] + [doms[:2]]:
+        for ibd, trunc in itertools.product((False, True), (False, True)):
+            support, _ = _process_segments(grid, None, segs, None)
+            N = grid.number_of_elements
+            state = {"grid_data_elements": np.asarray(grid.elements).astype(int), "grid_data_vertex_on_boundary": np.asarray(grid.vertex_on_boundary).astype(int),
+                     "vertex_neighbors": np.asarray(vn).astype(int), "index_ptr": np.asarray(ptr).astype(int), "support": np.asarray(support).astype(int),
+                     "include_boundary_dofs": int(ibd), "truncate_at_segment_edge": int(trunc), "local2global": -np.ones((N, 3), dtype=int),
+                     "vertex_is_dof": np.zeros(grid.number_of_vertices, dtype=int), "extended_support": []}
+            for E in [int(e) for e in np.flatnonzero(support)]:
+                for li in range(3):
+                    args = dict(state, element_index=E, local_index=li)
+                    env = VN.bind_shapes(contract, args)
+                    for t in contract["requires"]:
+                        if not VN.evaluate(t, env):
+                            return violated("the real execution reaches the selection block in a state outside its `requires` (%s) on %s segments=%s" % (t[:90], gridname, segs),
+                                            witness={"grid": gridname, "segments": segs, "element": E, "local_index": li}, signature="p1-selection/requires", replay={"confirmed": True})
+                    old = {"old_" + k: (v.copy() if isinstance(v, np.ndarray) else (list(v) if isinstance(v, list) else v)) for k, v in env.items()}
+                    res = block(*[args[p_] for p_ in params])
+                    env.update(old)
+                    env.update({"result": res, "result_0": res[0], "result_1": res[1], "result_2": res[2]})
+                    for t in contract["ensures"]:
+                        if not VN.evaluate(t, env):
+                            return violated("selection block of _compute_p1_dof_map violates its contract natively on %s segments=%s include_boundary_dofs=%s truncate=%s at element %d slot %d: %s"
+                                            % (gridname, segs, ibd, trunc, E, li, t[:120]), witness={"grid": gridname, "segments": segs, "element": E, "local_index": li},
+                                            signature="p1-selection/ensures", replay={"confirmed": True})
+                    steps += 1
+            # the pre-dof table the block leaves is what the real function turns into the dof map: slot carries a dof <=> multiplier 1
+            l2g, mult, sup = SC._compute_p1_dof_map(grid.data(), np.asarray(support).copy(), ibd, trunc, vn, ptr)
+            if not np.array_equal(np.asarray(mult) != 0, state["local2global"] != -1):
+                return violated("pre-dof table of the block-wise run differs from the multipliers of the real function on %s segments=%s include_boundary_dofs=%s truncate=%s"
+                                % (gridname, segs, ibd, trunc), witness={"grid": gridname, "segments": segs}, signature="p1-selection/real-function", replay={"confirmed": True})
+    return held("%d block executions, all requires and ensures hold; final tables agree with the real function" % steps)
+
+
 def main():
     run = Run("C09", "other")
     thorough = run.tier == "thorough"
@@ -551,8 +599,13 @@ def main():
     # dof and maps to its number; slot cover (used by C16); frame
     from vlib import vrun as VR
 
-    for blk in ("_p1_final_block", "_rwg_selection_block", "_rwg_final_block"):
+    for blk in ("_p1_selection_block", "_p1_final_block", "_rwg_selection_block", "_rwg_final_block"):
         VR.add_block(run, "contracts.dofmap_blocks", blk)
+    for gname in ("screen2", "octa", "two_tets_face") + (("screen3", "cube12") if thorough else ()):
+        run.add("_p1_selection_block::native[%s]" % gname, "bounded", ob_p1_selection_native, gname)
+    # nested helper of _compute_p1_dof_map, assumed by the selection block at its call site
+    VR.add_function(run, "bempp_cl.api.space.scalar_spaces", "_compute_p1_dof_map::find_index", "contracts.p1_helpers",
+                    [{"array": [3, 1, 2], "value": 2}, {"array": [3, 1, 2], "value": 7}, {"array": [5, 5], "value": 5}])
     # invert_local2global: global2local lists (e, i) under d  <=>  local2global[e, i] == d with a non-zero multiplier (V-engine, all sizes; the list of lists is
     # abstracted to a relation: order and multiplicity of the entries are not modelled)
     VR.add_function(run, "bempp_cl.api.space.space", "invert_local2global", "contracts.space_maps",
